@@ -347,12 +347,13 @@ def array_case(args):
     a = array('B', vals)
     enc = lambda x: -1 if x is None else int(x)
     return (_call(lambda: get_prev_index(a, i, v), enc), _call(lambda: get_next_index(a, i, v), enc),
-            _call(lambda: list(get_u8_array(n)), lambda l: len(l) if all(x == 0 for x in l) else -8))
+            _call(lambda: list(get_u8_array(n)), lambda l: len(l) if all(x == 0 for x in l) else -8),
+            _call(lambda: a.index(v, i), enc))
 
 
 def array_builtins_stage(ctx: Ctx):
     """S-api tie of Model/PyLoop.v u8_prev_index / u8_next_index / u8_zeros (what Generated/KernelsGpo.v calls where the source calls
-    get_prev_index / get_next_index / get_u8_array): every array over {0, 1, 2} up to length 4, every start from -6 to 6."""
+    get_prev_index / get_next_index / get_u8_array / array.index): every array over {0, 1, 2} up to length 4, every start from -6 to 6."""
     import itertools
     cases = []
     for ln in range(0, 5):
@@ -366,11 +367,12 @@ def array_builtins_stage(ctx: Ctx):
         codes = ' | '.join(f'Err {k} => {coq_z(v)}' for k, v in ERR.items() if k in ('ValueError', 'IndexError'))
         return f'(match {term} with Ok (Some k) => k | Ok None => -1 | {codes} | Err _ => -9 end)%Z'
     exprs = []
-    for (vals, i, v, n), (rp, rn, rz) in zip(cases, res):
+    for (vals, i, v, n), (rp, rn, rz, ri) in zip(cases, res):
         l = coq_list(coq_z(x) for x in vals)
         codes = ' | '.join(f'Err {k} => {coq_z(c)}' for k, c in ERR.items() if k in ('ValueError', 'IndexError'))
         exprs.append(f'(Z.eqb {enc_coq(f"u8_prev_index {l} {coq_z(i)} {v}")} {coq_z(rp)}) && (Z.eqb {enc_coq(f"u8_next_index {l} {coq_z(i)} {v}")} {coq_z(rn)}) && '
-                     f'(Z.eqb (match u8_zeros {coq_z(n)} with Ok z => if forallb (Z.eqb 0) z then zlen z else -8 | {codes} | Err _ => -9 end)%Z {coq_z(rz)})')
+                     f'(Z.eqb (match u8_zeros {coq_z(n)} with Ok z => if forallb (Z.eqb 0) z then zlen z else -8 | {codes} | Err _ => -9 end)%Z {coq_z(rz)}) && '
+                     f'(Z.eqb (match u8_index {l} {v} {coq_z(i)} with Ok k => k | {codes} | Err _ => -9 end)%Z {coq_z(ri)})')
     bad, err = coq_eval(['Model.Base', 'Model.PyLoop'], exprs)
     ctx.corr['cases'] += len(exprs)
     ctx.count('array_builtin_cases', len(exprs))
